@@ -51,120 +51,148 @@ Section C07.
       + rewrite unc_seg_cfuns. apply in_map_iff. exists l. auto.
   Qed.
 
-  (* ----- the seen-set version: a pure de-duplication of the (shell, exponent) items ----- *)
+  (* ----- the seen-set version: every (shell, exponent) item is emitted for the momenta not yet seen ----- *)
   Definition item := (shell N * N)%type.
-  Definition ikey (it : item) : prim N := (am (fst it), snd it).
-  Definition iunit (it : item) : shell N := unit_shell one_lit (fst it) (snd it).
+  Definition trip := (shell N * list Z * N)%type.
+  Definition tkeys (t : trip) : list (prim N) := map (fun l => (l, snd t)) (snd (fst t)).
+  Definition tunit (t : trip) : shell N := unit_shell_am one_lit (fst (fst t)) (snd (fst t)) (snd t).
   Definition items (shs : list (shell N)) : list item :=
     flat_map (fun s => map (pair s) (exps s)) shs.
+  Definition fresh_am (s : shell N) (x : N) (seen : list (prim N)) : list Z :=
+    filter (fun l => negb (prim_seen same l x seen)) (am s).
 
-  Fixpoint dd (l : list item) (seen : list (prim N)) : list item :=
+  Fixpoint dd (l : list item) (seen : list (prim N)) : list trip :=
     match l with
     | [] => []
-    | it :: t => if prim_seen same (am (fst it)) (snd it) seen then dd t seen
-                 else it :: dd t (seen ++ [ikey it])
+    | it :: t =>
+      match fresh_am (fst it) (snd it) seen with
+      | [] => dd t seen
+      | a :: r => (fst it, a :: r, snd it) :: dd t (seen ++ map (fun l => (l, snd it)) (a :: r))
+      end
     end.
 
   Lemma dd_app : forall a b seen,
-    dd (a ++ b) seen = dd a seen ++ dd b (seen ++ map ikey (dd a seen)).
+    dd (a ++ b) seen = dd a seen ++ dd b (seen ++ flat_map tkeys (dd a seen)).
   Proof.
-    induction a as [| it t IH]; intros b seen; cbn [app dd map].
+    induction a as [| it t IH]; intros b seen; cbn [app dd flat_map].
     - rewrite app_nil_r. reflexivity.
-    - destruct (prim_seen same (am (fst it)) (snd it) seen).
+    - destruct (fresh_am (fst it) (snd it) seen) as [| l r].
       + apply IH.
-      + cbn [app map]. rewrite IH, <- app_assoc. reflexivity.
+      + cbn [app flat_map]. rewrite IH, <- app_assoc. reflexivity.
   Qed.
 
   Lemma unc_seg_prims_dd : forall (s : shell N) xs seen,
     unc_seg_prims same one_lit s xs seen
-    = (map iunit (dd (map (pair s) xs) seen), seen ++ map ikey (dd (map (pair s) xs) seen)).
+    = (map tunit (dd (map (pair s) xs) seen), seen ++ flat_map tkeys (dd (map (pair s) xs) seen)).
   Proof.
-    intros s. induction xs as [| x t IH]; intros seen; cbn [unc_seg_prims map dd fst snd].
+    intros s. induction xs as [| x t IH]; intros seen; cbn [unc_seg_prims map dd fst snd flat_map].
     - rewrite app_nil_r. reflexivity.
-    - destruct (prim_seen same (am s) x seen).
+    - unfold fresh_am.
+      destruct (filter (fun l => negb (prim_seen same l x seen)) (am s)) as [| l r].
       + apply IH.
-      + rewrite IH. cbn [map]. rewrite <- app_assoc. reflexivity.
+      + rewrite IH. cbn [map flat_map]. rewrite <- app_assoc. reflexivity.
   Qed.
 
   Lemma unc_seg_shells_dd : forall shs seen,
-    unc_seg_shells same one_lit shs seen = map iunit (dd (items shs) seen).
+    unc_seg_shells same one_lit shs seen = map tunit (dd (items shs) seen).
   Proof.
     induction shs as [| s t IH]; intros seen; cbn [unc_seg_shells items flat_map dd map].
     - reflexivity.
     - rewrite unc_seg_prims_dd. fold (items t). rewrite dd_app, map_app, IH. reflexivity.
   Qed.
 
-  Lemma list_eqb_Z : forall a b : list Z, list_eqb Z.eqb a b = true <-> a = b.
-  Proof.
-    induction a as [| x a IH]; destruct b as [| y b]; cbn [list_eqb]; split; intros H;
-      try reflexivity; try discriminate.
-    - apply andb_true_iff in H. destruct H as [H1 H2]. apply Z.eqb_eq in H1. apply IH in H2. congruence.
-    - injection H as H1 H2. subst. apply andb_true_iff. split; [apply Z.eqb_refl | apply IH; reflexivity].
-  Qed.
-
-  Definition seenP (a : list Z) (x : N) (seen : list (prim N)) : Prop :=
+  Definition seenP (a : Z) (x : N) (seen : list (prim N)) : Prop :=
     exists p, In p seen /\ fst p = a /\ same (snd p) x = true.
 
   Lemma prim_seen_iff : forall a x seen, prim_seen same a x seen = true <-> seenP a x seen.
   Proof.
     intros a x seen. unfold prim_seen, seenP. rewrite existsb_exists. split.
     - intros [p [Hin Hp]]. apply andb_true_iff in Hp. destruct Hp as [H1 H2].
-      apply list_eqb_Z in H1. exists p. auto.
+      apply Z.eqb_eq in H1. exists p. auto.
     - intros [p [Hin [H1 H2]]]. exists p. split; [exact Hin |].
-      apply andb_true_iff. split; [apply list_eqb_Z; exact H1 | exact H2].
+      apply andb_true_iff. split; [apply Z.eqb_eq; exact H1 | exact H2].
   Qed.
 
-  Lemma dd_in : forall l seen it, In it (dd l seen) -> In it l.
+  Lemma fresh_am_in : forall s x seen l,
+    In l (fresh_am s x seen) <-> In l (am s) /\ ~ seenP l x seen.
   Proof.
-    induction l as [| it0 t IH]; intros seen it H; cbn [dd] in H; [destruct H |].
-    destruct (prim_seen same (am (fst it0)) (snd it0) seen).
-    - right. eapply IH. exact H.
-    - destruct H as [H | H]; [left; exact H | right; eapply IH; exact H].
+    intros s x seen l. unfold fresh_am. rewrite filter_In, negb_true_iff, <- prim_seen_iff.
+    destruct (prim_seen same l x seen); split; intros [H1 H2]; split; auto; congruence.
   Qed.
 
-  Lemma dd_fresh : forall l seen v, In v (dd l seen) -> ~ seenP (am (fst v)) (snd v) seen.
+  Lemma seenP_app : forall a x s1 s2, seenP a x (s1 ++ s2) <-> seenP a x s1 \/ seenP a x s2.
   Proof.
-    induction l as [| it0 t IH]; intros seen v H; cbn [dd] in H; [destruct H |].
-    destruct (prim_seen same (am (fst it0)) (snd it0) seen) eqn:E.
-    - apply IH. exact H.
+    intros a x s1 s2. unfold seenP. split.
+    - intros [p [Hin Hp]]. apply in_app_or in Hin. destruct Hin as [Hin | Hin]; [left | right]; exists p; auto.
+    - intros [[p [Hin Hp]] | [p [Hin Hp]]]; exists p; (split; [apply in_or_app | exact Hp]); auto.
+  Qed.
+
+  Lemma seenP_keys : forall a x (na : list Z) y,
+    seenP a x (map (fun l => (l, y)) na) <-> In a na /\ same y x = true.
+  Proof.
+    intros a x na y. unfold seenP. split.
+    - intros [p [Hin [H1 H2]]]. apply in_map_iff in Hin. destruct Hin as [l [E Hl]]. subst p.
+      cbn [fst snd] in H1, H2. subst l. auto.
+    - intros [H1 H2]. exists (a, y). split; [apply in_map_iff; exists a; auto | auto].
+  Qed.
+
+  Lemma dd_in : forall l seen s na x, In (s, na, x) (dd l seen) ->
+    In (s, x) l /\ na <> [] /\ (forall a, In a na -> In a (am s)).
+  Proof.
+    induction l as [| it0 t IH]; intros seen s na x H; cbn [dd] in H; [destruct H |].
+    destruct (fresh_am (fst it0) (snd it0) seen) as [| a r] eqn:E.
+    - destruct (IH _ _ _ _ H) as [H1 H2]. split; [right; exact H1 | exact H2].
     - destruct H as [H | H].
-      + subst v. intros Hs. apply prim_seen_iff in Hs. congruence.
-      + intros [p [Hin Hp]]. apply (IH _ _ H). exists p. split; [apply in_or_app; left; exact Hin | exact Hp].
+      + injection H as H1 H2 H3. subst s na x. split; [left; destruct it0; reflexivity |].
+        split; [discriminate |]. intros b Hb. rewrite <- E in Hb. apply fresh_am_in in Hb. tauto.
+      + destruct (IH _ _ _ _ H) as [H1 H2]. split; [right; exact H1 | exact H2].
   Qed.
 
-  Lemma dd_cover : forall l seen it, In it l ->
-    seenP (am (fst it)) (snd it) seen \/
-    exists it', In it' (dd l seen) /\ am (fst it') = am (fst it) /\ same (snd it') (snd it) = true.
+  Lemma dd_fresh : forall l seen s na x a, In (s, na, x) (dd l seen) -> In a na -> ~ seenP a x seen.
   Proof.
-    induction l as [| it0 t IH]; intros seen it Hin; [destruct Hin |].
-    cbn [dd]. destruct (prim_seen same (am (fst it0)) (snd it0) seen) eqn:E.
-    - destruct Hin as [Hin | Hin].
-      + subst it0. left. apply prim_seen_iff. exact E.
-      + apply IH. exact Hin.
-    - destruct Hin as [Hin | Hin].
-      + subst it0. right. exists it. split; [left; reflexivity |]. split; [reflexivity |].
-        apply (same_refl Hc).
-      + destruct (IH (seen ++ [ikey it0]) it Hin) as [[p [Hp [H1 H2]]] | [it' [H1 H2]]].
-        * apply in_app_or in Hp. destruct Hp as [Hp | [Hp | []]].
-          -- left. exists p. auto.
-          -- subst p. cbn [ikey fst snd] in H1, H2. right. exists it0.
-             split; [left; reflexivity | auto].
-        * right. exists it'. split; [right; exact H1 | exact H2].
+    induction l as [| it0 t IH]; intros seen s na x a H Ha; cbn [dd] in H; [destruct H |].
+    destruct (fresh_am (fst it0) (snd it0) seen) as [| b r] eqn:E.
+    - eapply IH; eauto.
+    - destruct H as [H | H].
+      + injection H as H1 H2 H3. subst s na x. rewrite <- E in Ha. apply fresh_am_in in Ha. tauto.
+      + intros Hs. apply (IH _ _ _ _ _ H Ha). apply seenP_app. left. exact Hs.
   Qed.
 
-  Lemma dd_nodup : forall l seen i j u v, (i < j)%nat ->
-    nth_error (dd l seen) i = Some u -> nth_error (dd l seen) j = Some v ->
-    am (fst u) = am (fst v) -> same (snd u) (snd v) = true -> False.
+  Lemma dd_cover : forall l seen s x a, In (s, x) l -> In a (am s) ->
+    seenP a x seen \/
+    exists s' na' x', In (s', na', x') (dd l seen) /\ In a na' /\ same x' x = true.
   Proof.
-    induction l as [| it0 t IH]; intros seen i j u v Hij Hi Hj Ham Hs; cbn [dd] in Hi, Hj.
+    induction l as [| it0 t IH]; intros seen s x a Hin Ha; [destruct Hin |].
+    cbn [dd]. destruct Hin as [Hin | Hin].
+    - subst it0. cbn [fst snd].
+      destruct (prim_seen same a x seen) eqn:Ep; [left; apply prim_seen_iff; exact Ep |].
+      assert (Hf : In a (fresh_am s x seen)).
+      { apply fresh_am_in. split; [exact Ha |]. rewrite <- prim_seen_iff. congruence. }
+      destruct (fresh_am s x seen) as [| b r]; [destruct Hf |].
+      right. exists s, (b :: r), x. split; [left; reflexivity |]. split; [exact Hf | apply (same_refl Hc)].
+    - destruct (fresh_am (fst it0) (snd it0) seen) as [| b r] eqn:E.
+      + apply (IH seen s x a Hin Ha).
+      + destruct (IH (seen ++ map (fun l => (l, snd it0)) (b :: r)) s x a Hin Ha)
+          as [Hs | [s' [na' [x' [H1 H2]]]]].
+        * apply seenP_app in Hs. destruct Hs as [Hs | Hs]; [left; exact Hs |].
+          apply seenP_keys in Hs. right. exists (fst it0), (b :: r), (snd it0).
+          split; [left; reflexivity | exact Hs].
+        * right. exists s', na', x'. split; [right; exact H1 | exact H2].
+  Qed.
+
+  Lemma dd_nodup : forall l seen i j s na x t nb y a, (i < j)%nat ->
+    nth_error (dd l seen) i = Some (s, na, x) -> nth_error (dd l seen) j = Some (t, nb, y) ->
+    In a na -> In a nb -> same x y = true -> False.
+  Proof.
+    induction l as [| it0 r IH]; intros seen i j s na x t nb y a Hij Hi Hj Ha Hb Hs; cbn [dd] in Hi, Hj.
     - destruct i; discriminate.
-    - destruct (prim_seen same (am (fst it0)) (snd it0) seen).
+    - destruct (fresh_am (fst it0) (snd it0) seen) as [| b r0] eqn:E.
       + eapply IH; eauto.
       + destruct j as [| j]; [lia |]. cbn [nth_error] in Hj.
         destruct i as [| i]; cbn [nth_error] in Hi.
-        * injection Hi as Hi. subst it0. apply nth_error_In in Hj.
-          apply (dd_fresh _ _ _ Hj). exists (ikey u).
-          split; [apply in_or_app; right; left; reflexivity |]. cbn [ikey fst snd]. auto.
+        * injection Hi as H1 H2 H3. apply nth_error_In in Hj.
+          apply (dd_fresh _ _ _ _ _ _ Hj Hb). apply seenP_app. right.
+          rewrite H2, H3. apply seenP_keys. auto.
         * eapply (IH _ i j); eauto. lia.
   Qed.
 
@@ -194,50 +222,64 @@ Section C07.
     - intros [Hs Hx]. exists s. split; [exact Hs |]. apply in_map. exact Hx.
   Qed.
 
+  (* the contracted functions of a unit shell restricted to the momenta ams (any list, duplicates included) *)
+  Lemma unit_am_cfuns : forall (s : shell N) (ams : list Z) (x : N),
+    shell_cfuns (unit_shell_am one_lit s ams x) = map (fun l => (l, [(x, one_lit)])) ams.
+  Proof.
+    intros s ams x. unfold unit_shell_am, shell_cfuns. cbn [am coefs exps].
+    assert (Hz : forall a : list Z,
+              zip_am a (map (fun _ : Z => [one_lit]) a) [x] = map (fun l => (l, [(x, one_lit)])) a).
+    { induction a as [| l t IH]; cbn [map zip_am combine]; [reflexivity | rewrite IH; reflexivity]. }
+    destruct ams as [| l [| l2 t]].
+    - reflexivity.
+    - reflexivity.
+    - apply Hz.
+  Qed.
+
   Lemma unc_seg_shells_spec : unc_seg_shells_spec_stmt is0 same one_lit.
   Proof.
     unfold unc_seg_shells_spec_stmt. intros shs f. rewrite unc_seg_shells_dd.
     unfold FSin, shells_cfuns. split.
     - intros [g [Hg Hf]].
       apply in_flat_map in Hg. destruct Hg as [u [Hu Hg]].
-      apply in_map_iff in Hu. destruct Hu as [[s x] [Eu Hit]]. subst u.
-      apply dd_in in Hit. apply items_in in Hit. destruct Hit as [Hs Hx].
-      unfold iunit in Hg. cbn [fst snd] in Hg. rewrite unc_seg_cfuns in Hg.
+      apply in_map_iff in Hu. destruct Hu as [[[s na] x] [Eu Hit]]. subst u.
+      apply dd_in in Hit. destruct Hit as [Hit [_ Hsub]].
+      apply items_in in Hit. destruct Hit as [Hs Hx].
+      unfold tunit in Hg. cbn [fst snd] in Hg. rewrite unit_am_cfuns in Hg.
       apply in_map_iff in Hg. destruct Hg as [l [El Hl]]. subst g.
       exists s, l, x. auto.
     - intros [s [l [x [Hs [Hl [Hx Hf]]]]]].
       assert (Hit : In (s, x) (items shs)) by (apply items_in; auto).
-      destruct (dd_cover _ [] _ Hit) as [[p [[] _]] | [[s' x'] [Hin [Ham Hsame]]]].
-      cbn [fst snd] in Ham, Hsame.
+      destruct (dd_cover _ [] _ _ _ Hit Hl) as [[p [[] _]] | [s' [na' [x' [Hin [Ham Hsame]]]]]].
       exists (l, [(x', one_lit)]). split.
-      + apply in_flat_map. exists (iunit (s', x')). split; [apply in_map; exact Hin |].
-        unfold iunit. cbn [fst snd]. rewrite unc_seg_cfuns. apply in_map_iff. exists l.
-        split; [reflexivity |]. rewrite Ham. exact Hl.
+      + apply in_flat_map. exists (tunit (s', na', x')). split; [apply in_map; exact Hin |].
+        unfold tunit. cbn [fst snd]. rewrite unit_am_cfuns. apply in_map_iff. exists l. auto.
       + eapply feq_trans'; [exact Hf |]. apply feq_unit. exact Hsame.
   Qed.
 
   Lemma unc_seg_shells_nodup : unc_seg_shells_nodup_stmt same one_lit.
   Proof.
-    unfold unc_seg_shells_nodup_stmt. intros shs i j s t x y. rewrite unc_seg_shells_dd.
-    intros Hi Hj Ham Hx Hy Hs.
+    unfold unc_seg_shells_nodup_stmt. intros shs i j s t l x y. rewrite unc_seg_shells_dd.
+    intros Hi Hj Hls Hlt Hx Hy Hs.
     rewrite nth_error_map in Hi, Hj.
-    destruct (nth_error (dd (items shs) []) i) as [u |] eqn:Eu; [| discriminate].
-    destruct (nth_error (dd (items shs) []) j) as [v |] eqn:Ev; [| discriminate].
+    destruct (nth_error (dd (items shs) []) i) as [[[s1 na] x1] |] eqn:Eu; [| discriminate].
+    destruct (nth_error (dd (items shs) []) j) as [[[s2 nb] x2] |] eqn:Ev; [| discriminate].
     cbn [option_map] in Hi, Hj. injection Hi as Hi. injection Hj as Hj. subst s t.
-    unfold iunit, unit_shell in Ham, Hx, Hy. cbn [am exps] in Ham, Hx, Hy.
-    injection Hx as Hx. injection Hy as Hy. subst x y.
-    destruct (Nat.lt_trichotomy i j) as [Hlt | [Heq | Hgt]]; [exfalso | exact Heq | exfalso].
-    - eapply dd_nodup; [exact Hlt | exact Eu | exact Ev | exact Ham | exact Hs].
-    - eapply dd_nodup; [exact Hgt | exact Ev | exact Eu | symmetry; exact Ham |].
+    unfold tunit, unit_shell_am in Hls, Hlt, Hx, Hy. cbn [am exps fst snd] in Hls, Hlt, Hx, Hy.
+    injection Hx as Hx. injection Hy as Hy. subst x1 x2.
+    destruct (Nat.lt_trichotomy i j) as [Hlt' | [Heq | Hgt]]; [exfalso | exact Heq | exfalso].
+    - eapply dd_nodup; [exact Hlt' | exact Eu | exact Ev | exact Hls | exact Hlt | exact Hs].
+    - eapply dd_nodup; [exact Hgt | exact Ev | exact Eu | exact Hlt | exact Hls |].
       apply (same_sym Hc). exact Hs.
   Qed.
 
   Lemma unc_seg_shells_shape : unc_seg_shells_shape_stmt same one_lit.
   Proof.
     unfold unc_seg_shells_shape_stmt. intros shs u. rewrite unc_seg_shells_dd. intros Hu.
-    apply in_map_iff in Hu. destruct Hu as [[s x] [Eu Hit]]. subst u.
-    apply dd_in in Hit. apply items_in in Hit. destruct Hit as [Hs Hx].
-    exists s, x. auto.
+    apply in_map_iff in Hu. destruct Hu as [[[s na] x] [Eu Hit]]. subst u.
+    apply dd_in in Hit. destruct Hit as [Hit [Hne Hsub]].
+    apply items_in in Hit. destruct Hit as [Hs Hx].
+    exists s, x, na. unfold tunit. cbn [fst snd]. auto.
   Qed.
 
   (* ---------- remove_free_primitives ---------- *)
